@@ -11,6 +11,8 @@ PROP = dict(
         dict(module="MCClientCall", cfg="MCClientCall_asbuilt_d9b.cfg", expect_violation="InvReleased", timeout=300, workers=2),  # D9b
         dict(module="MCClientCall", cfg="MCClientCall_asbuilt_d18.cfg", expect_violation="InvReleased", timeout=300, workers=2),  # D18
         dict(module="MCClientDrain", cfg="MCClientDrain_asbuilt.cfg", expect_violation="InvDrained", timeout=300, workers=2),     # D16
+        # liveness form of D9: with the pre-fix behaviour the writer goroutine never dies (temporal counterexample)
+        dict(module="MCClientCall", cfg="MCClientCall_asbuilt_live.cfg", expect_violation="Temporal property WriterDies", timeout=600, workers=2),
     ],
     gen=dict(module="GenClientCall", cfg=dict(quick="GenClientCall_quick.cfg", thorough="GenClientCall_thorough.cfg"), timeout=600),
     level_text="ClientCall models Runtime.Submit as four processes (caller, multipart writer goroutine, transport/server, clock) with "
